@@ -583,8 +583,25 @@ theorem parseEmail_strOnly (doc : Doc) (h : StrOnly doc) (order : List Str) :
     simp [hs] at hxc
   · rfl
 
-/-- the body is empty (or is not a `str` / `bytes` object at all) -/
-def BodyEmpty (doc : Doc) : Prop := doc.payload = .str [] ∨ doc.payload = .bytes [] ∨ doc.payload = .other
+/-- the tail by the outcome of `getPayload` -/
+theorem parseTail_eq (doc : Doc) (acc : Dict × Unparsed) :
+    parseTail doc acc = match getPayload doc.payload with
+      | .ok s => .ok (mergeBody acc s)
+      | .error _ =>
+        match doc.payload with
+        | .bytes b =>
+          (match aget descriptionKey acc.1 with
+           | some v => .ok (adel descriptionKey acc.1,
+               extendDescription acc.2 [.str (match v with | .str s => s | _ => []), .bytes b])
+           | none => .ok (acc.1, extendDescription acc.2 [.bytes b]))
+        | _ => .error (ofString "AssertionError") := by
+  unfold parseTail
+  cases hpl : doc.payload with
+  | other => rfl
+  | str s => rfl
+  | bytes b =>
+    simp only [getPayload]
+    cases utf8Decode b <;> rfl
 
 theorem catches_value_assert : catches "ValueError" (toStringLossy (ofString "AssertionError")) = false := by decide
 
@@ -644,6 +661,110 @@ theorem kw_key : keywordsKey = ofString "keywords" := by decide
 theorem pu_key : projectUrlsKey = ofString "project_urls" := by decide
 theorem catches_keyerror : catches "KeyError" "KeyError" = true := by decide
 
+
+/-! ## the description / body merge -/
+
+/-- a `Description` header kept in `raw` is a `str` -/
+def DescStr (d : Dict) : Prop := ∀ v, aget descriptionKey d = some v → ∃ s, v = .str s
+
+theorem lf_desc : Gen.Meta.listFields.contains descriptionKey = false := by decide
+theorem kw_desc : (descriptionKey == keywordsKey) = false := by decide
+theorem pu_desc : (descriptionKey == projectUrlsKey) = false := by decide
+theorem desc_key : ofString "description" = descriptionKey := by decide
+
+theorem classifyV_desc (vals : List Str) (ok : Bool) (ln : Str) (v : Val)
+    (h : classifyV vals ok ln = .raw descriptionKey v) : ∃ s, v = .str s := by
+  unfold classifyV at h
+  split at h
+  · cases h
+  · split at h
+    · cases h
+    · split at h
+      · injection h with h1 h2; exact ⟨_, h2.symm⟩
+      · split at h
+        · rename_i hlf
+          injection h with h1 h2; subst h1; rw [lf_desc] at hlf; cases hlf
+        · split at h
+          · rename_i hkw
+            injection h with h1 h2; subst h1; rw [kw_desc] at hkw; simp at hkw
+          · split at h
+            · rename_i hpu
+              split at h
+              · injection h with h1 h2; subst h1; rw [pu_desc] at hpu; cases hpu
+              · cases h
+            · cases h
+
+theorem step_descStr (doc : Doc) (acc : Dict × Unparsed) (n : Str) (h : DescStr acc.1) : DescStr (step doc acc n).1 := by
+  simp only [step]
+  cases hc : classify doc (lowerStr n) with
+  | raw key v =>
+    intro w hw
+    simp only [aget_aset] at hw
+    by_cases e : key = descriptionKey
+    · simp only [e, if_true, Option.some.injEq] at hw
+      subst hw; subst e
+      rw [classify_eq] at hc
+      exact classifyV_desc _ _ _ _ hc
+    · simp only [e, if_false] at hw
+      exact h w hw
+  | unparsed vals => exact h
+
+theorem headerLoop_descStr (doc : Doc) (order : List Str) : DescStr (headerLoop doc order).1 := by
+  unfold headerLoop
+  suffices ∀ acc : Dict × Unparsed, DescStr acc.1 → DescStr (order.foldl (step doc) acc).1 from
+    this ([], []) (by intro v h; simp at h)
+  induction order with
+  | nil => intro acc h; exact h
+  | cons n ns ih => intro acc h; exact ih _ (step_descStr doc acc n h)
+
+theorem dict_contains_rel {β : Type} {enc : β → PyVal} {kvs : List (PyVal × PyVal)} {d : List (Str × β)} (h : ARel enc kvs d) (k : Str) :
+    dict_contains (.dict kvs) (.str k) = .ok (aget k d).isSome := by
+  simp [dict_contains, hashable, ARel_lookup h k]
+
+theorem dict_pop_rel {β : Type} {enc : β → PyVal} {kvs : List (PyVal × PyVal)} {d : List (Str × β)} (h : ARel enc kvs d) (k : Str) (v : β)
+    (hv : aget k d = some v) : dict_pop (.dict kvs) (.str k) = .ok (enc v, .dict (dictErase kvs (.str k))) := by
+  simp [dict_pop, hashable, ARel_lookup h k, hv]
+
+theorem setdefault_extend_rel {u : List (PyVal × PyVal)} {a : Unparsed} (h : UnparsedRel u a) (k : Str) (xs : List UVal) :
+    ∃ u', dict_setdefault_extend (.dict u) (.str k) (.list (xs.map encUVal)) = .ok (.dict u') ∧
+      UnparsedRel u' (aset k ((aget k a).getD [] ++ xs) a) := by
+  cases hl : aget k a with
+  | none =>
+    have hlook : dictLookup u (.str k) = Option.none := by rw [ARel_lookup h k, hl]; rfl
+    refine ⟨dictSet (dictSet u (.str k) (encUList [])) (.str k) (encUList ([] ++ xs)), ?_, ?_⟩
+    · simp [dict_setdefault_extend, dict_setdefault, hashable, hlook, dictSet_absent' u _ _ hlook, dict_setitem, encUList]
+    · refine ARel_congr (ARel_set (ARel_set h k []) k ([] ++ xs)) (fun k' => ?_)
+      simp only [aget_aset, Option.getD_none]
+      by_cases e : k = k' <;> simp [e]
+  | some l =>
+    have hlook : dictLookup u (.str k) = some (encUList l) := by rw [ARel_lookup h k, hl]; rfl
+    refine ⟨dictSet u (.str k) (encUList (l ++ xs)), ?_, ?_⟩
+    · simp [dict_setdefault_extend, dict_setdefault, hashable, hlook, dict_setitem, encUList]
+    · simp only [Option.getD_some]; exact ARel_set h k (l ++ xs)
+
+theorem setdefault_append_rel {u : List (PyVal × PyVal)} {a : Unparsed} (h : UnparsedRel u a) (k : Str) (x : UVal) :
+    ∃ u', dict_setdefault_append (.dict u) (.str k) (encUVal x) = .ok (.dict u') ∧
+      UnparsedRel u' (aset k ((aget k a).getD [] ++ [x]) a) := by
+  obtain ⟨u', h1, h2⟩ := setdefault_extend_rel h k [x]
+  refine ⟨u', ?_, h2⟩
+  rw [← h1]
+  simp only [dict_setdefault_append, dict_setdefault_extend, List.map_cons, List.map_nil]
+  cases hsd : dict_setdefault (.dict u) (.str k) (.list []) with
+  | error e => rfl
+  | ok p =>
+    simp only [ok_bind]
+    cases p.1 <;> rfl
+
+theorem item_append_rel {u : List (PyVal × PyVal)} {a : Unparsed} (h : UnparsedRel u a) (k : Str) (x : UVal) (l : List UVal)
+    (hl : aget k a = some l) :
+    ∃ u', dict_item_append (.dict u) (.str k) (encUVal x) = .ok (.dict u') ∧ UnparsedRel u' (aset k (l ++ [x]) a) := by
+  have hlook : dictLookup u (.str k) = some (encUList l) := by rw [ARel_lookup h k, hl]; rfl
+  refine ⟨dictSet u (.str k) (encUList (l ++ [x])), ?_, ARel_set h k (l ++ [x])⟩
+  simp [dict_item_append, dict_getitem, hashable, hlook, dict_setitem, encUList]
+
+
+theorem catches_value_value : catches "ValueError" (toStringLossy (ofString "ValueError")) = true := by decide
+
 theorem ite_bind_same {α β : Type} (c : Prop) [Decidable c] (a b : M α) (f : α → M β) :
     (if c then a >>= f else b >>= f) = (if c then a else b) >>= f := by split <;> rfl
 
@@ -652,8 +773,7 @@ set_option maxHeartbeats 1000000 in
 translated code is assumed): for `str` and for `bytes` input, every oracle `ext` that answers the parser call with a message
 presenting `doc` and answers `str.lower` on header names like the ASCII `lowerStr`,
 
-* `StrOnly doc`: every header value is a `str` (no `email.header.Header` objects, hence no `decode_header` error), and
-* `BodyEmpty doc`: the body is empty or not a `str`/`bytes` object (the description/body merge is not exercised),
+* `StrOnly doc`: every header value is a `str` (no `email.header.Header` objects, hence no `decode_header` error),
 
 the translated function returns dicts that agree look-up by look-up with the model's result for the visiting order
 `orderOf doc` (a permutation of the distinct header names, `orderOf_perm`), or raises the same class. -/
@@ -663,7 +783,7 @@ theorem parse_email_eq_model_partial (ext : PyRt.Oracle) (data m : PyVal) (doc :
       else "email.parser.BytesParser(policy=email.policy.compat32).parsebytes(_, headersonly=True)") [data] = .ok m)
     (hm : MsgRel m doc isStr)
     (hlower : ∀ s, ext "str.lower" [.str s] = .ok (.str (lowerStr s)))
-    (hstr : StrOnly doc) (hbody : BodyEmpty doc) :
+    (hstr : StrOnly doc) :
     match parseEmail doc (orderOf doc) with
     | .ok (d, u) => ∃ r un, Gen.PySrc.parse_email ext data = .ok (.tuple [.dict r, .dict un]) ∧ DictRel r d ∧ UnparsedRel un u
     | .error c => Gen.PySrc.parse_email ext data = .error (toStringLossy c) := by
@@ -754,29 +874,102 @@ theorem parse_email_eq_model_partial (ext : PyRt.Oracle) (data m : PyVal) (doc :
     intro s' hs'
     obtain ⟨r, u, hr, hu, hdr, hur⟩ := hs'
     simp only at hr hu
-    simp only [hrun, hr, hu, parseEmail_strOnly doc hstr, parseTail]
+    simp only [hrun, hr, hu, parseEmail_strOnly doc hstr, parseTail_eq, desc_key]
+    have hds := headerLoop_descStr doc (orderOf doc)
     change DictRel r (headerLoop doc (orderOf doc)).1 at hdr
     change UnparsedRel u (headerLoop doc (orderOf doc)).2 at hur
-    generalize headerLoop doc (orderOf doc) = acc at hdr hur ⊢
-    rcases hbody with hb | hb | hb
-    · simp only [hb, getPayload, mergeBody, truthy_str, List.isEmpty_nil, Bool.not_true, Bool.false_eq_true, if_false, if_true, pure_ok]
-      exact ⟨r, u, rfl, hdr, hur⟩
-    · have hd : utf8Decode [] = some [] := by rfl
-      simp only [hb, getPayload, hd, mergeBody, truthy_str, List.isEmpty_nil, Bool.not_true, Bool.false_eq_true, if_false, if_true, pure_ok]
-      exact ⟨r, u, rfl, hdr, hur⟩
-    · simp only [hb, getPayload, catches_value_assert, Bool.false_eq_true, if_false, throw_err, err_bind]
+    generalize headerLoop doc (orderOf doc) = acc at hdr hur hds ⊢
+    cases hgp : getPayload doc.payload with
+    | ok s =>
+      -- the payload decodes to `s`
+      simp only [truthy_str, mergeBody]
+      cases hs : s.isEmpty with
+      | true => exact ⟨r, u, by simp, hdr, hur⟩
+      | false =>
+        simp only [Bool.not_false, if_true, Bool.false_eq_true, if_false, dict_contains_rel hdr, ok_bind]
+        cases hv : aget descriptionKey acc.1 with
+        | some v =>
+          obtain ⟨t, rfl⟩ := hds v hv
+          obtain ⟨u', he, hrel⟩ := setdefault_extend_rel hur descriptionKey [.str t, .str s]
+          simp only [List.map_cons, List.map_nil, encUVal] at he
+          simp only [Option.isSome_some, if_true, dict_pop_rel hdr _ _ hv, ok_bind, encVal, he, pure_ok]
+          exact ⟨_, _, rfl, ARel_erase hdr _, hrel⟩
+        | none =>
+          simp only [Option.isSome_none, Bool.false_eq_true, if_false, dict_contains_rel hur, ok_bind]
+          cases hw : aget descriptionKey acc.2 with
+          | some l =>
+            obtain ⟨u', he, hrel⟩ := item_append_rel hur descriptionKey (.str s) l hw
+            simp only [encUVal] at he
+            simp only [Option.isSome_some, if_true, he, ok_bind, pure_ok]
+            refine ⟨_, _, rfl, hdr, ?_⟩
+            simpa [extendDescription, hw] using hrel
+          | none =>
+            simp only [Option.isSome_none, Bool.false_eq_true, if_false, dict_setitem_str, ok_bind, pure_ok]
+            exact ⟨_, _, rfl, raw_set hdr descriptionKey (.str s), hur⟩
+    | error c =>
+      cases hpl : doc.payload with
+      | other =>
+        simp only [hpl, getPayload, Except.error.injEq] at hgp
+        subst hgp
+        simp only [catches_value_assert, Bool.false_eq_true, if_false, throw_err, err_bind]
+      | str s => simp [hpl, getPayload] at hgp
+      | bytes b =>
+        have hd : utf8Decode b = none ∧ c = ofString "ValueError" := by
+          simp only [hpl, getPayload] at hgp
+          cases hd : utf8Decode b with
+          | some s => simp [hd] at hgp
+          | none => simp only [hd, Except.error.injEq] at hgp; exact ⟨rfl, hgp.symm⟩
+        obtain ⟨hd, rfl⟩ := hd
+        simp only [catches_value_value, if_true]
+        -- the source was `bytes`: the message presents the body as the `decoded` field
+        obtain ⟨fs', hfs, _, hp⟩ := hm
+        cases hfs
+        cases isStr with
+        | true =>
+          simp only [if_true] at hp
+          obtain ⟨v, _, hv⟩ := hp
+          rw [hpl] at hv
+          rcases hv with ⟨s, h1, _⟩ | ⟨h1, _⟩ <;> cases h1
+        | false =>
+          simp only [Bool.false_eq_true, if_false] at hp hdata ⊢
+          obtain ⟨v, hlv, hv⟩ := hp
+          rw [hpl] at hv
+          obtain ⟨bs, rfl⟩ := hdata
+          rcases hv with ⟨b', h1, rfl, hb256⟩ | ⟨h1, _⟩
+          · cases h1
+            have hget : msg_get_payload (delCTE fs (encHdrs doc)) (.bool true) = .ok (PyElf.ofBytes b) := by
+              simp only [delCTE, msg_get_payload, truthy_bool, if_true, hasHeader_after_del "Message" fs _ _ hh, Bool.false_eq_true, if_false,
+                getattr_obj, lookupField_setField']
+              simp [hlv]
+            simp only [x9_isinstance_bytes, hget, ok_bind, dict_contains_rel hdr]
+            cases hv : aget descriptionKey acc.1 with
+            | some v =>
+              obtain ⟨t, rfl⟩ := hds v hv
+              obtain ⟨u1, he1, hrel1⟩ := setdefault_append_rel hur descriptionKey (.str t)
+              obtain ⟨u2, he2, hrel2⟩ := setdefault_append_rel hrel1 descriptionKey (.bytes b)
+              simp only [encUVal] at he1 he2
+              simp only [Option.isSome_some, if_true, dict_pop_rel hdr _ _ hv, ok_bind, encVal, he1, he2, pure_ok]
+              refine ⟨_, _, rfl, ARel_erase hdr _, ARel_congr hrel2 (fun k' => ?_)⟩
+              simp only [extendDescription, aget_aset, if_true, Option.getD_some, List.append_assoc, List.cons_append, List.nil_append]
+              by_cases e : descriptionKey = k' <;> simp [e]
+            | none =>
+              obtain ⟨u2, he2, hrel2⟩ := setdefault_append_rel hur descriptionKey (.bytes b)
+              simp only [encUVal] at he2
+              simp only [Option.isSome_none, Bool.false_eq_true, if_false, he2, ok_bind, pure_ok]
+              exact ⟨_, _, rfl, hdr, hrel2⟩
+          · cases h1
 
 /-- the hypotheses of `parse_email_eq_model_partial` can be met -/
 example : ∃ (ext : PyRt.Oracle) (data m : PyVal) (doc : Doc),
     (∃ s, data = .str s) ∧
     ext "email.parser.Parser(policy=email.policy.compat32).parsestr(_, headersonly=True)" [data] = .ok m ∧
-    MsgRel m doc true ∧ (∀ s, ext "str.lower" [.str s] = .ok (.str (lowerStr s))) ∧ StrOnly doc ∧ BodyEmpty doc ∧ doc.hdrs ≠ [] := by
-  let doc : Doc := ⟨[(ofString "Name", .str (ofString "foo"))], .str []⟩
-  let m : PyVal := .obj "Message" [("headers", .list (encHdrs doc)), ("payload", .str [])]
+    MsgRel m doc true ∧ (∀ s, ext "str.lower" [.str s] = .ok (.str (lowerStr s))) ∧ StrOnly doc ∧ doc.hdrs ≠ [] := by
+  let doc : Doc := ⟨[(ofString "Name", .str (ofString "foo"))], .str (ofString "body")⟩
+  let m : PyVal := .obj "Message" [("headers", .list (encHdrs doc)), ("payload", .str (ofString "body"))]
   refine ⟨fun k args => if k = "str.lower" then (match args with | [.str s] => .ok (.str (lowerStr s)) | _ => .error "TypeError") else .ok m,
-    .str [], m, doc, ⟨[], rfl⟩, by simp, ⟨_, rfl, by simp [m], ?_⟩, fun s => by simp, ?_, .inl rfl, by simp [doc]⟩
+    .str [], m, doc, ⟨[], rfl⟩, by simp, ⟨_, rfl, by simp [m], ?_⟩, fun s => by simp, ?_, by simp [doc]⟩
   · simp only [if_true]
-    exact ⟨.str [], by simp [m], .inl ⟨[], rfl, rfl⟩⟩
+    exact ⟨.str (ofString "body"), by simp [m], .inl ⟨ofString "body", rfl, rfl⟩⟩
   · intro h hh
     simp only [doc, List.mem_singleton] at hh
     exact ⟨ofString "foo", by rw [hh]⟩
